@@ -350,7 +350,9 @@ class RTDCBase(abc.ABC):
         elif scale == "log":
             with warnings.catch_warnings(record=True) as w:
                 warnings.simplefilter("always")
-                b = np.log(a)
+                # Compute the logarithm in double precision: for small
+                # integer dtypes, np.log would return float16 or float32.
+                b = np.log(np.asarray(a, dtype=np.float64))
                 if len(w):
                     # Tell the user that the log-transformation issued
                     # a warning.
